@@ -633,8 +633,8 @@ def parts(tier, seed):
                {"shard": i, "nshards": 8, "sample3": 0.05}) for i in range(8)]
         ps += [(f"sweep-forms-{i}", part_sweep_forms,
                 {"shard": i, "nshards": 3, "sample3": 0.1}) for i in range(3)]
-        ps += [(f"heap-{i}", part_heap, {"n": 600, "steps": 14})
-               for i in range(4)]
+        ps += [(f"heap-{i}", part_heap, {"n": 1500, "steps": 16})
+               for i in range(5)]
         ps += [("literal", part_literal, {})]
     else:
         ps = [(f"sweep-fn-{i}", part_sweep_functions,
